@@ -18,6 +18,9 @@ CONSTANTS
   SharedGen = TRUE
   EmitBeforeClose = TRUE
   MaxHeld = 0
+  MaxSHeld = 0
+  StartBeforeEmit = TRUE
+  CmdFreshTicket = TRUE
 CONSTRAINT DistinctTickets
 CONSTRAINT RegistryExact
 CONSTRAINT NoOverdue
